@@ -11,6 +11,7 @@
 import Lean.Data.Json
 import FB.DSL
 import FB.Spec
+import FB.Impl
 namespace FB.Wire
 open Lean (Json)
 
@@ -233,5 +234,33 @@ partial def showCall : CallNode → LJson
   | .mk f t a k st ch =>
     Json.mkObj [("f", .str f), ("t", match t with | some p => .str (showPath p) | none => .null),
       ("a", showJson a), ("k", showJson k), ("st", .str st), ("ch", .arr (ch.map showCall).toArray)]
+
+def showQuery : Query → (String × List LJson)
+  | .isFile p => ("is_file", [.str (showPath p)])
+  | .isDir p => ("is_dir", [.str (showPath p)])
+  | .exists_ p => ("exists", [.str (showPath p)])
+  | .listDir p => ("list_dir", [.str (showPath p)])
+  | .walk p td => ("walk", [.str (showPath p), .bool td])
+  | .getSize p => ("get_size", [.str (showPath p)])
+  | .read p c => ("read", [.str (showPath p), .str c.name])
+
+partial def showOp : Op → LJson
+  | .simple q ret exc =>
+    let (name, args) := showQuery q
+    Json.mkObj [("type", .str name), ("args", .arr args.toArray), ("ret", showJson ret),
+      ("exc", match exc with | some e => .str e.name | none => .null)]
+  | .buildFile p c f a k subs r cr raised sf =>
+    Json.mkObj [("type", "build_file"), ("filename", .str (showPath p)), ("cmp", .str c.name), ("func", .str f),
+      ("args", showJson a), ("kwargs", showJson k), ("subs", .arr (subs.map showOp).toArray),
+      ("ret", showJson r), ("cmpRes", showJson cr), ("raised", .bool raised), ("setupFailed", .bool sf)]
+  | .subbuild f a k subs r raised sf =>
+    Json.mkObj [("type", "subbuild"), ("func", .str f), ("args", showJson a), ("kwargs", showJson k),
+      ("subs", .arr (subs.map showOp).toArray), ("ret", showJson r), ("raised", .bool raised),
+      ("setupFailed", .bool sf)]
+
+def showCache (c : CacheRec) : LJson :=
+  Json.mkObj [("buildName", .str c.buildName), ("roots", .arr (c.roots.map showOp).toArray),
+    ("createdDirs", .arr (c.createdDirs.map fun p => .str (showPath p)).toArray),
+    ("versions", showJson (.obj c.versions))]
 
 end FB.Wire
